@@ -7,6 +7,7 @@
    `_partial` forms under that guard, importer_swallow_refuted is the refutation without it;
    `sizes_by_cid` = content addressing (equal CIDs, equal sizes). Traces are chronological. *)
 From V Require Import Base.Common Model.C13_Adder Model.C13_Check Model.C13_Spec Proofs.C13_Theorems Proofs.C13_Monitor.
+From V Require Import Model.C13_Importer Model.C13_ImporterSpec Model.C13_ShapeCheck Proofs.C13_Importer Proofs.C13_Trickle Proofs.C13_ShapeMonitor Proofs.C13_ImporterLink Proofs.C13_ImporterThm.
 Open Scope N_scope.
 
 (* BlockAdder.Add fails exactly when every destination errored; otherwise the destinations that did not
@@ -254,3 +255,188 @@ Proof. cbv zeta.
   split; [intros b [<-|[<-|[<-|[<-|[]]]]]; reflexivity|]. split; [reflexivity|].
   split; [intros b b' [<-|[<-|[<-|[<-|[]]]]] [<-|[<-|[<-|[<-|[]]]]]; simpl; intros; congruence|].
   vm_compute. repeat split. Qed.
+
+
+(* ======================================================================================================================
+   The importer for ONE file (Model/C13_Importer.v: size chunker, DagBuilderHelper, balanced and trickle layouts of
+   go-unixfs v0.2.6 as written). Quantification: every byte string bs, every chunk size k > 0, every links-per-block
+   ml >= min_links (2 for balanced, 1 for trickle; the shipped value is 174). A block is its content (Leaf chunk | Node of
+   (child, recorded size)); the hash is any function without collision on the blocks of the DAG at hand (injective_on).
+   Not covered (still differential, TestVerifC13Files): directories, HAMT, dag-pb / UnixFS encodings, SHA-256, rabin / buzhash.
+   ====================================================================================================================== *)
+
+(* the size splitter cuts the file into consecutive pieces: nothing lost, nothing reordered *)
+Theorem chunk_concat k bs : 0 < k -> concat (chunk k bs) = bs.
+Proof. exact (chunk_concat_l k bs). Qed.
+Print Assumptions chunk_concat.
+
+(* every chunk is non-empty and has at most k bytes, all but the last exactly k; the empty file has no chunk *)
+Theorem chunk_sizes k bs : 0 < k ->
+  Forall (fun c => c <> [] /\ blen c <= k) (chunk k bs) /\ all_but_last (fun c => blen c = k) (chunk k bs) /\ (chunk k bs = [] <-> bs = []).
+Proof. exact (chunk_sizes_l k bs). Qed.
+Print Assumptions chunk_sizes.
+
+(* termination: the fuel the transcription passes to the layout loops suffices; the layout returns its root, the file size as
+   the recorded size of the root, and hands the blocks to DAGService.Add in post-order (children first, left to right, root last) *)
+Theorem importer_total trickle ml k bs : 0 < k -> min_links trickle <= ml ->
+  let r := importer trickle ml k bs in
+  r = inr (layout_tree r, blen bs, postorder (layout_tree r)) /\ read_back (layout_tree r) = bs.
+Proof. exact (importer_total_l trickle ml k bs). Qed.
+Print Assumptions importer_total.
+
+(* the bound 2 is exact for balanced: with one link per block Layout never takes a chunk (the Go loop does not end) *)
+Theorem balanced_one_link_diverges fuel d root fsz s : d_rest s <> [] -> layout_loop 1 fuel (S d) root fsz s = inl IFuel.
+Proof. exact (balanced_one_link_diverges_thm fuel d root fsz s). Qed.
+Print Assumptions balanced_one_link_diverges.
+
+(* a sequential reader of the balanced DAG returns the file *)
+Theorem balanced_read_back ml k bs : 0 < k -> 2 <= ml -> read_back (layout_tree (balanced_layout ml (chunk k bs))) = bs.
+Proof. exact (fun Hk Hml => proj2 (importer_total_l false ml k bs Hk Hml)). Qed.
+Print Assumptions balanced_read_back.
+
+(* balanced: the leaves are the chunks in order (the empty file is one empty leaf); every internal node has between 1 and ml
+   children and records for each the bytes below it; all leaves are at the same depth *)
+Theorem balanced_leaves_in_order_and_fanout ml chunks : 2 <= ml ->
+  let t := layout_tree (balanced_layout ml chunks) in
+  (chunks <> [] -> leaves t = chunks) /\ (chunks = [] -> t = Leaf []) /\ all_nodes (node_ok ml) t /\ uniform (height t) t.
+Proof. exact (balanced_shape_l ml chunks). Qed.
+Print Assumptions balanced_leaves_in_order_and_fanout.
+
+(* trickle: the leaves are the chunks in order (the empty file is an internal node without links); below the root no internal
+   node is empty and every link records the bytes below it *)
+Theorem trickle_leaves_in_order ml chunks : 1 <= ml ->
+  let t := layout_tree (trickle_layout ml chunks) in
+  leaves t = chunks /\ (exists ch, t = Node ch /\ (chunks <> [] -> ch <> [])) /\ (forall n, In n (below t) -> tnode_ok n).
+Proof. exact (trickle_shape_l ml chunks). Qed.
+Print Assumptions trickle_leaves_in_order.
+
+(* trickle, the layer structure (tshape): every node has at most ml leaves first, sub-trees only after a full leaf layer, and the i-th
+   sub-tree was made with maxDepth i/4 + 1 (four sub-trees per depth, depth 1 first), recursively; hence the fan-out of a node made
+   with maxDepth m is at most ml + 4 (m - 1) *)
+Theorem trickle_layers ml chunks : 1 <= ml -> tshape (S (length chunks)) ml None (layout_tree (trickle_layout ml chunks)).
+Proof. exact (trickle_layout_shape ml chunks). Qed.
+Print Assumptions trickle_layers.
+
+Theorem trickle_fanout fuel ml m ch : tshape fuel ml (Some m) (Node ch) -> N.of_nat (length ch) <= ml + 4 * N.of_nat (m - 1).
+Proof. exact (tshape_fanout fuel ml m ch). Qed.
+Print Assumptions trickle_fanout.
+
+(* both layouts: every link of every node records the number of file bytes below it, the root records the file size *)
+Theorem importer_recorded_sizes trickle ml k bs : 0 < k -> min_links trickle <= ml ->
+  let r := importer trickle ml k bs in
+  all_nodes sized (layout_tree r) /\ layout_size r = blen bs /\ tsize (layout_tree r) = blen bs.
+Proof. exact (importer_sizes_l trickle ml k bs). Qed.
+Print Assumptions importer_recorded_sizes.
+
+(* ... so a reader can seek: skipping every child whose recorded size lies before the offset yields bytes [off, off+n) of the file *)
+Theorem importer_seek trickle ml k bs off n : 0 < k -> min_links trickle <= ml ->
+  read_range (layout_tree (importer trickle ml k bs)) off n = firstn (N.to_nat n) (skipn (N.to_nat off) bs).
+Proof. exact (importer_seek_l trickle ml k bs off n). Qed.
+Print Assumptions importer_seek.
+
+Theorem seek_correct t : all_nodes sized t -> forall off n,
+  read_range t off n = firstn (N.to_nat n) (skipn (N.to_nat off) (read_back t)).
+Proof. exact (read_range_correct t). Qed.
+Print Assumptions seek_correct.
+
+(* emission order: in the order of DAGService.Add every block's children come before it, the last block is the root, and
+   every link of an emitted block goes to an emitted block *)
+Theorem importer_emission_closed trickle ml k bs : 0 < k -> min_links trickle <= ml ->
+  let r := importer trickle ml k bs in
+  layout_emission r = postorder (layout_tree r) /\ children_first (layout_emission r) /\
+  last (layout_emission r) (Leaf []) = layout_tree r /\
+  (forall n c, In n (layout_emission r) -> In c (kids n) -> In c (layout_emission r)).
+Proof. exact (importer_emission_l trickle ml k bs). Qed.
+Print Assumptions importer_emission_closed.
+
+(* hence the model's stream meets the importer contract the adder theorems above assume: strict, link-closed, contains the root,
+   and (no CID collision among its blocks) equal CIDs have equal sizes *)
+Theorem importer_stream_contract cid_of enc_size trickle ml k bs : 0 < k -> min_links trickle <= ml ->
+  let r := importer trickle ml k bs in
+  let stream := stream_of cid_of enc_size (layout_emission r) in
+  strict stream /\ link_closed stream /\ In (cid_of (layout_tree r)) (cids_of stream) /\
+  (injective_on (postorder (layout_tree r)) cid_of -> sizes_by_cid stream).
+Proof. exact (importer_stream_contract_l cid_of enc_size trickle ml k bs). Qed.
+Print Assumptions importer_stream_contract.
+
+(* ONE FILE, END TO END (unsharded): for every file content, chunk size, layout and admissible links-per-block, every hash without
+   collision on the DAG, every allocation / put-outcome / pin-outcome script: if the add succeeds then it returns the importer's
+   root, exactly that root is pinned, every block reachable from the root was put to a daemon, and a reader that only has the
+   blocks that were put gets back exactly the bytes of the file *)
+Theorem single_file_delivered_closed_and_readable cid_of enc_size e trickle ml k bs c t : 0 < k -> min_links trickle <= ml ->
+  let r := importer trickle ml k bs in
+  let root := cid_of (layout_tree r) in
+  let stream := stream_of cid_of enc_size (layout_emission r) in
+  injective_on (postorder (layout_tree r)) cid_of ->
+  single_run e stream root = (ROk c, t) ->
+  c = CData root /\ (exists al, ok_pins t = [single_pin e root al]) /\
+  (forall x, reach stream root x -> In x (data_puts t)) /\
+  read_store (store_of cid_of (layout_emission r) (data_puts t)) (S (height (layout_tree r))) root = Some bs.
+Proof. exact (fun Hk Hml Hinj => single_file_unsharded_l cid_of enc_size e trickle ml k bs Hk Hml Hinj c t). Qed.
+Print Assumptions single_file_delivered_closed_and_readable.
+
+(* the same through the sharding DAG service (every shard limit, MaxLinks > 0): the root is the same importer root, it is pinned
+   by the meta pin, and the blocks put to the daemons are closed from it and read back to the file *)
+Theorem single_file_delivered_closed_and_readable_sharded cid_of enc_size e trickle ml k bs c t : 0 < k -> min_links trickle <= ml ->
+  let r := importer trickle ml k bs in
+  let root := cid_of (layout_tree r) in
+  let stream := stream_of cid_of enc_size (layout_emission r) in
+  injective_on (postorder (layout_tree r)) cid_of -> 0 < e_maxlinks e ->
+  shard_run e stream root = (ROk c, t) ->
+  c = CData root /\ (exists q, In q (ok_pins t) /\ pcid q = CData root /\ pty q = TMeta) /\
+  (forall x, reach stream root x -> In x (data_puts t)) /\
+  read_store (store_of cid_of (layout_emission r) (data_puts t)) (S (height (layout_tree r))) root = Some bs.
+Proof. exact (fun Hk Hml Hinj => single_file_sharded_l cid_of enc_size e trickle ml k bs Hk Hml Hinj c t). Qed.
+Print Assumptions single_file_delivered_closed_and_readable_sharded.
+
+(* ---- the monitors of Model/C13_ShapeCheck.v applied to the DAG the real importer built (codes 30, 32, 33) ---- *)
+(* code 30: every link of an observed block goes to a block handed to the DAG service before it; the last one is the returned root *)
+Theorem closed_monitor_sound bs root : closed_okb bs root = true ->
+  links_before bs /\ exists pre b, bs = pre ++ [b] /\ ob_id b = root.
+Proof. exact (closed_okb_sound bs root). Qed.
+Print Assumptions closed_monitor_sound.
+
+(* codes 32 / 33 say what they should *)
+Theorem shape_monitors_sound lo hi d t :
+  (fanout_okb lo hi t = true <-> all_nodes (fun n => match n with Leaf _ => True | Node ch => lo <= N.of_nat (length ch) <= hi end) t) /\
+  (uniformb d t = true <-> uniform d t) /\ (sizes_okb t = true <-> all_nodes sized t).
+Proof. exact (conj (fanout_okb_iff lo hi t) (conj (uniformb_iff d t) (sizes_okb_iff t))). Qed.
+Print Assumptions shape_monitors_sound.
+
+(* completeness: the model's own DAG passes them *)
+Theorem balanced_passes_monitors ml chunks : 2 <= ml ->
+  let t := layout_tree (balanced_layout ml chunks) in
+  fanout_okb 1 ml t = true /\ uniformb (height t) t = true /\ sizes_okb t = true.
+Proof. exact (balanced_passes ml chunks). Qed.
+Print Assumptions balanced_passes_monitors.
+
+Theorem trickle_passes_monitors ml chunks : 1 <= ml ->
+  let t := layout_tree (trickle_layout ml chunks) in
+  trickle_okb (S (length chunks)) ml None t = true /\
+  sizes_okb t = true /\ (chunks <> [] -> forallb (fun n => match n with Node [] => false | _ => true end) (postorder t) = true).
+Proof. exact (fun H => conj (trickle_passes_shape ml chunks H) (trickle_passes ml chunks H)). Qed.
+Print Assumptions trickle_passes_monitors.
+
+(* the trickle monitor (code 32) decides the layer structure *)
+Theorem trickle_monitor_sound ml fuel md t : trickle_okb fuel ml md t = true <-> tshape fuel ml md t.
+Proof. exact (trickle_okb_iff ml fuel md t). Qed.
+Print Assumptions trickle_monitor_sound.
+
+(* non-vacuity: an 11-byte file, chunks of 2 bytes, 2 links per block: the balanced DAG of depth 3 (12 blocks); a collision-free
+   CID function on it; an unsharded add to peers 1 and 2 where peer 2 drops out at the third block succeeds, pins the root, and
+   the blocks put read back to the file; bytes 3..7 by seeking *)
+Example single_file_example :
+  let bs := [10; 11; 12; 13; 14; 15; 16; 17; 18; 19; 20] in
+  let r := importer false 2 2 bs in
+  let cid_of := fun t => tsize t * 10000 + hd 0 (read_back t) * 10 + N.of_nat (height t) in
+  let e := mkenv 1 2 0 5984 false (fun _ => Some [1; 2]) (fun j d => if (j =? 2) && (d =? 2) then PRpc else POk) (fun _ => true) in
+  let stream := stream_of cid_of (fun t => tsize t + 7) (layout_emission r) in
+  length (layout_emission r) = 12%nat /\ height (layout_tree r) = 3%nat /\
+  injective_on (postorder (layout_tree r)) cid_of /\
+  fst (single_run e stream (cid_of (layout_tree r))) = ROk (CData (cid_of (layout_tree r))) /\
+  read_store (store_of cid_of (layout_emission r) (data_puts (snd (single_run e stream (cid_of (layout_tree r))))))
+             4 (cid_of (layout_tree r)) = Some bs /\
+  read_range (layout_tree r) 3 5 = [13; 14; 15; 16; 17] /\
+  layout_tree (importer true 2 2 bs) <> layout_tree r.
+Proof. cbv zeta. split; [reflexivity|]. split; [reflexivity|]. split; [apply nodup_injective_on; vm_compute; reflexivity|].
+  split; [vm_compute; reflexivity|]. split; [vm_compute; reflexivity|]. split; [vm_compute; reflexivity|]. vm_compute. discriminate. Qed.
